@@ -495,6 +495,8 @@ pub struct Stats {
     pub executions: u64,
     pub max_depth: u64,
     pub outcomes: BTreeMap<String, u64>,
+    /// cases whose search was stopped by the per-case cap (history depth / number of states)
+    pub capped_cases: u64,
 }
 
 impl Stats {
@@ -503,6 +505,7 @@ impl Stats {
         self.transitions += o.transitions;
         self.executions += o.executions;
         self.max_depth = self.max_depth.max(o.max_depth);
+        self.capped_cases += o.capped_cases;
         for (k, v) in &o.outcomes {
             *self.outcomes.entry(k.clone()).or_insert(0) += v;
         }
@@ -546,7 +549,17 @@ pub fn explore(ctx: &Ctx, case: &Case, rank: u64) -> Stats {
             stack.push(Vec::new());
         }
     }
+    // A case is a small search on the unchanged tree (tens to a few hundred states). The caps only
+    // keep a changed tree (e.g. one that hands out a large body byte by byte) from turning one case
+    // into millions of replays; a capped case is reported, never called exhaustive.
+    const MAX_DEPTH: usize = 120;
+    const MAX_STATES: u64 = 2_000;
+    let mut capped = false;
     while let Some(hist) = stack.pop() {
+        if hist.len() >= MAX_DEPTH || st.states >= MAX_STATES {
+            capped = true;
+            continue;
+        }
         st.max_depth = st.max_depth.max(hist.len() as u64 + 1);
         for &op in &ops {
             let mut ex = Exec::start(case.mode, &b);
@@ -590,6 +603,9 @@ pub fn explore(ctx: &Ctx, case: &Case, rank: u64) -> Stats {
                 stack.push(h2);
             }
         }
+    }
+    if capped {
+        st.capped_cases = 1;
     }
     st
 }
